@@ -467,7 +467,7 @@ func TestVerifRuntimeMeta(t *testing.T) {
 
 	// ---- code -> spec: seeded random driver, trace validated by TLC ----
 	rng := env.Rand()
-	traces := env.Pick(150, 1500)
+	traces := env.Pick(150, 800)
 	for tr := 0; tr < traces; tr++ {
 		caseNo++
 		sut.begin(caseNo)
